@@ -6,9 +6,12 @@ use std::sync::Mutex;
 /// Apply `f` to every index `0..n` on `threads` workers; results are returned in index order.
 /// `f` gets the index. Work is handed out dynamically, results do not depend on the schedule.
 pub fn par_map<R: Send>(n: usize, threads: usize, f: impl Fn(usize) -> R + Sync) -> Vec<R> {
+    let threads = threads.max(1).min(n.max(1));
+    if threads == 1 {
+        return (0..n).map(f).collect();
+    }
     let next = AtomicUsize::new(0);
     let out: Mutex<Vec<Option<R>>> = Mutex::new((0..n).map(|_| None).collect());
-    let threads = threads.max(1).min(n.max(1));
     std::thread::scope(|s| {
         for _ in 0..threads {
             s.spawn(|| loop {
